@@ -32,7 +32,7 @@ example :
       [ ([[1, 2]], [[1, 2]], 3, 0, false),
         ([[1, 2], [-1, -2], [-1, -2]], [[1, 2], [-1, -2], [-1, -2]], 3, 1, false),
         ([[1, 2]], [[1, 2]], 3, 1, false),
-        ([[1, 2], [3]], [[1, 2], [3]], 3, 0, false) ] := by decide
+        ([[1, 2], [3]], [[1, 2], [3]], 3, 1, false) ] := by decide
 
 /-- the undo brings back the stored clauses and the denotation of the start -/
 example : exS2.cur.clauses = exStart.cur.clauses ∧ exS2.cur.den = exStart.cur.den ∧
